@@ -92,6 +92,10 @@ FORMS = {
     "itemsets": {"md": MD_ITEMSETS, "expect": "ok"},
     "early": {"md": MD_EARLY, "expect": "early"},
     "late": {"md": MD_LATE, "expect": "late"},
+    # crash points inside print_xform_to_file's write of the temp file (fault injected at the call of `open`)
+    "disk-open": {"md": MD_PLAIN, "fault": "open", "expect": "diskfault"},
+    "disk-write": {"md": MD_ITEMSETS, "fault": "write", "expect": "diskfault"},
+    "disk-vanish": {"md": MD_WARN, "fault": "vanish", "expect": "diskfault"},
     # a lone surrogate in a label: UnicodeEncodeError while writing the temp file (print_xform_to_file's except
     # branch) on trees that let it through, a PyXFormError once characters are validated
     "surrogate": {"dict": DICT_SURROGATE, "expect": ("unencodable", "early", "late"), "lib_only": True},
@@ -110,6 +114,8 @@ def abstract_form(sb, fid):
             k = "late" if a["to_xml_calls"] else "early"
         elif a["raised"] == "UnicodeEncodeError":
             k = "unencodable"
+        elif a["raised"] in ("OSError", "FileNotFoundError") and f.get("fault"):
+            k = "diskfault"
         else:
             raise vcore.Infra(f"baseline conversion of form {fid} raised {a['raised']}: {a['msg']}")
         if k != f["expect"] and k not in f["expect"]:
@@ -143,9 +149,20 @@ BREAKS = ["\n", "\n", "\n", "\r\n", "\r", "\x0b", "\x0c", "\x1c", "\x1d", "\x1e"
 JARFILE = "Error: Unable to access jarfile"
 
 
+NAME_PIECES = ["first", "name", "hh", "member", "count", "age", "q", "grp", "Village", "id", "x"]
+
+
+def gen_name(rng):
+    """an XLSForm-legal ASCII element name: letters, digits, `-` and `_` (never starting with a digit or hyphen)"""
+    n = rng.choice(NAME_PIECES)
+    for _ in range(rng.randint(0, 3)):
+        n += rng.choice(["-", "-", "_", "", "-_", "--"]) + rng.choice(NAME_PIECES + ["1", "27", "0x"])
+    return n
+
+
 def gen_path(rng, odd=False):
     n = rng.randint(2, 4)
-    segs = [rng.choice(NAMES) for _ in range(n)]
+    segs = [gen_name(rng) if rng.random() < 0.4 else rng.choice(NAMES) for _ in range(n)]
     if odd:
         segs[rng.randrange(n)] = rng.choice(ODD_NAMES)
     return "/" + "/".join(segs)
@@ -470,12 +487,41 @@ def run_oracle(case, obs, af):
 
 # ----------------------------------------------------------------------------- enumeration
 
+JVM_NOTICES = ["Picked up JAVA_TOOL_OPTIONS: -Xmx512m -Dfile.encoding=UTF-8", "Picked up _JAVA_OPTIONS: -Djava.io.tmpdir=/tmp",
+               "NOTE: Picked up JDK_JAVA_OPTIONS: --add-opens=java.base/java.lang=ALL-UNNAMED",
+               "OpenJDK 64-Bit Server VM warning: Options -Xverify:none and -noverify were deprecated in JDK 13",
+               "WARNING: An illegal reflective access operation has occurred", "SLF4J: Failed to load class \"org.slf4j.impl.StaticLoggerBinder\".",
+               "Java HotSpot(TM) 64-Bit Server VM warning: ignoring option MaxPermSize=256m; support was removed in 8.0"]
+
+
+def gen_accept_stderr(rng, first=None):
+    """stderr of an accepting validator as a JVM really produces it: zero or more start-up notices of the JVM /
+    logging framework first, then the validator's own warnings"""
+    lines = [first or rng.choice(JVM_NOTICES)] + [rng.choice(JVM_NOTICES) for _ in range(rng.randint(0, 1))]
+    for _ in range(rng.randint(1, 3)):
+        lines.append(rng.choice(["Warning: ", "WARNING: ", ""]) + rng.choice(
+            ["XForm is valid but the title is missing for " + gen_path(rng), "Function 'pulldata' is not supported by every client: " + gen_path(rng),
+             "The field " + gen_path(rng) + " has no label", "1 warning(s) in " + gen_path(rng)]))
+    return "\n".join(lines) + "\n"
+
+
 def outcomes(ctx, rng, factor):
     n_rej = ctx.pick(3, 40) * min(factor, 2)
     n_warn = ctx.pick(1, 8)
+    n_notice = ctx.pick(0, 8)
     outs = [{"tag": "exit0-silent", "kind": "exit", "code": 0, "stderr": ""}]
     for i in range(n_warn):
         outs.append({"tag": "exit0-stderr", "kind": "exit", "code": 0, "stderr": gen_stderr(rng, directed=False) if i else "Warning: /data/g/q1 is odd\n"})
+    # every kind of start-up notice appears once as the first line of an accepted run's stderr (a filter keyed on the
+    # first line of stderr must not swallow the warnings behind it); further random combinations in the thorough tier
+    for i in range(len(JVM_NOTICES) + n_notice):
+        first = JVM_NOTICES[i] if i < len(JVM_NOTICES) else None
+        outs.append({"tag": "exit0-jvm-notice+stderr", "kind": "exit", "code": 0, "stderr": gen_accept_stderr(rng, first),
+                     "few_forms": i >= 1})
+    # a rejection citing nodes whose names use every legal ASCII name character
+    outs.append({"tag": "exit>0-named-paths", "kind": "exit", "code": 1,
+                 "stderr": "Error evaluating field '" + gen_name(rng) + "': " + "/data/" + gen_name(rng) + "/" + gen_name(rng) + "-" + gen_name(rng)
+                           + " depends on /data/" + gen_name(rng) + "_" + gen_name(rng) + "\nResult: Invalid\n"})
     for i in range(n_rej):
         outs.append({"tag": "exit>0", "kind": "exit", "code": rng.choice([1, 1, 2, 3, 70, 137, 255]), "stderr": gen_stderr(rng)})
     outs.append({"tag": "exit>0", "kind": "exit", "code": 1,
@@ -540,6 +586,10 @@ def explore(ctx, factor, bs):
             for fid, f in FORMS.items():
                 if outcome["kind"] == "sleep" and fid not in ("plain", "itemsets", "late"):
                     continue  # each validating run costs SHORT_TIMEOUT
+                if outcome.get("few_forms") and fid not in ("plain", "warn"):
+                    continue
+                if f.get("fault") and outcome["tag"] not in ("exit0-silent", "exit>0-named-paths", "java-absent", "killed"):
+                    continue  # the validator is never reached behind a failed write: a few environments suffice
                 for mode in modes(rng):
                     if f.get("lib_only"):
                         if mode["kind"] != "lib":
